@@ -43,6 +43,22 @@ impl C04 {
     }
 }
 
+impl C04 {
+    /// A small slice for C01's quick tier (where only panics, aborts and the checked-vs-shipping digests matter):
+    /// forty corpus words and the lexicon words of five or more letters in all five embeddings (alone, after /
+    /// before another word, between two words, after a function word) x every single edit.
+    pub fn slim() -> C04 {
+        let mut sets = Vec::new();
+        let corpus: Vec<String> = corpus_en_words().into_iter().filter(|w| w.chars().count() >= 5).step_by(7).take(40).collect();
+        for l in [L::None, L::En, L::De, L::Ru] {
+            let mut words = corpus.clone();
+            words.extend(lex_strings(l).into_iter().filter(|w| w.chars().count() >= 5));
+            sets.push(TitleSet { name: "slim: 40 corpus words + lexicon words >=5, five embeddings".into(), l, titles: Titles::List(embed_contexts(l, &words)), nctx: 1, block: 10 });
+        }
+        C04 { sets }
+    }
+}
+
 /// lower-case letters of the language's script that normalisation leaves unchanged
 fn letters(l: L) -> Vec<char> {
     let range: Vec<char> = if l.is_cyrillic() { ('а'..='я').collect() } else { ('a'..='z').collect() };
